@@ -1122,13 +1122,16 @@ class Fxp():
         if val is not None and self.scaled:
             if isinstance(val, (np.ndarray, np.generic)) and val.dtype.kind == 'u' and self.n_word < _n_word_max:
                 val = val.astype(np.int64)  # unsigned codes are moved to signed integers: scale or bias could be negative
-            if isinstance(val, (np.ndarray, np.generic)) and val.dtype.kind == 'i' and val.size > 0 \
-                    and isinstance(self.scale, (int, np.integer)) and isinstance(self.bias, (int, np.integer)) \
-                    and max(abs(int(np.max(val))), abs(int(np.min(val)))) * abs(int(self.scale)) + abs(int(self.bias)) >= 2**63:
-                val = np.asarray(val).astype(object)    # (the integer result does not fit in 64 bits: python integers)
-            # (numpy integer parameters as python integers: a python integer times or plus a numpy integer is evaluated in the numpy type and wraps around)
-            _scale = int(self.scale) if isinstance(self.scale, np.integer) else self.scale
-            _bias = int(self.bias) if isinstance(self.bias, np.integer) else self.bias
+            # (numpy integers and narrow numpy floats as python numbers: a python number times or plus a numpy scalar is evaluated in the numpy
+            #  scalar's own type - it wraps around in a narrow integer, it is rounded in float16 / float32)
+            _scale, _bias = self.scale, self.bias
+            if isinstance(_scale, np.integer) or (isinstance(_scale, np.floating) and _scale.dtype.itemsize < 8):
+                _scale = _scale.item()
+            if isinstance(_bias, np.integer) or (isinstance(_bias, np.floating) and _bias.dtype.itemsize < 8):
+                _bias = _bias.item()
+            if isinstance(val, (np.ndarray, np.generic)) and val.dtype.kind == 'i' and val.size > 0 and isinstance(_scale, int) \
+                    and max(abs(int(np.max(val))), abs(int(np.min(val)))) * abs(_scale) + (abs(_bias) if isinstance(_bias, int) else 0) >= 2**63:
+                val = np.asarray(val).astype(object)    # (the integer product - or the integer result - does not fit in 64 bits: python integers)
             val = val * _scale + _bias
         return val
 
